@@ -398,7 +398,7 @@ pub fn generate(rng: &mut Rng, fault_free: bool) -> K18 {
     push(&mut events_b, &mut t, key("F1"), 250_000);
     push(&mut events_b, &mut t, key("c:q"), 0);
     let gpsd_cli_offset = if !fault_free && rng.chance(0.12) { Some(*rng.pick(&[(0.5, 0.0), (0.0, 1.0), (-0.7, 0.8), (1.0, -1.0), (0.0, -0.3), (0.01, 0.01)])) } else { None };
-    let gpsd_move = if gpsd_cli_offset.is_some() && rng.chance(0.4) { Some(*rng.pick(&[(0.1, 0.12), (-0.08, 0.1), (0.05, -0.15), (-0.12, -0.06), (0.0, 0.15), (0.1, 0.0)])) } else { None };
+    let gpsd_move = if gpsd_cli_offset.is_some() && rng.chance(0.4) { Some(*rng.pick(&[(0.1, 0.2), (-0.2, 0.15), (0.05, -0.3), (-0.25, -0.1), (0.0, 0.3), (0.25, 0.0)])) } else { None };
     K18 { cols, rows, filter_time, locations, flags, lines, events_a, events_b, bulk, many: many || excursion, rx, gpsd_cli_offset, gpsd_move }
 }
 
@@ -1063,6 +1063,42 @@ fn check_map(sc: &K18, s: &Screen, rect: (usize, usize, usize, usize), r: &RefSn
             return;
         }
         out.probe("receiver_marker_at_centre");
+    }
+    // after a move the marker at the receiver's *old* place is no longer at the centre: it lies
+    // where its offset from the new position puts it, at the scale the other markers of the very
+    // same frame show (columns per degree from any east/west pair, rows per degree from any
+    // north/south pair; the spacing of fixed markers does not depend on where the receiver is)
+    if moved {
+        if let Some(&(x, y, dlat, dlon)) = pos.get("RX") {
+            let pair = |names: &[&str]| -> Option<((usize, usize, f64, f64), (usize, usize, f64, f64))> {
+                let v: Vec<_> = names.iter().filter_map(|n| pos.get(*n).copied()).collect();
+                if v.len() >= 2 {
+                    Some((v[0], v[v.len() - 1]))
+                } else {
+                    None
+                }
+            };
+            let mid_x = (cx[0] + cx[1]) as f64 / 2.0;
+            let mid_y = (cy[0] + cy[1]) as f64 / 2.0;
+            if let Some((a, b)) = pair(&["W2", "W1", "E1", "E2"]) {
+                let cols_per_deg = (b.0 as f64 - a.0 as f64) / (b.3 - a.3);
+                let want = mid_x + dlon * cols_per_deg;
+                out.probe("old_receiver_marker_judged_after_the_move");
+                if cols_per_deg > 0.0 && (x as f64 - want).abs() > 2.1 {
+                    out.violate("C18:map-receiver-not-at-centre", format!("frame {} (t={}us): the receiver moved to ({}, {}); the marker at its old place ({dlon:.3} deg of longitude away) is drawn in column {x}, at {cols_per_deg:.1} columns per degree (from the other markers of this frame) it belongs in column {want:.1} if the receiver is at the centre (column {mid_x})", s.k, s.vt_us, r.rx.0, r.rx.1));
+                    return;
+                }
+            }
+            if let Some((a, b)) = pair(&["N2", "N1", "S1", "S2"]) {
+                // a is the northern one (smaller row), b the southern one
+                let rows_per_deg = (b.1 as f64 - a.1 as f64) / (a.2 - b.2);
+                let want = mid_y - dlat * rows_per_deg;
+                if rows_per_deg > 0.0 && (y as f64 - want).abs() > 2.1 {
+                    out.violate("C18:map-receiver-not-at-centre", format!("frame {} (t={}us): the receiver moved to ({}, {}); the marker at its old place ({dlat:.3} deg of latitude away) is drawn in row {y}, at {rows_per_deg:.1} rows per degree (from the other markers of this frame) it belongs in row {want:.1} if the receiver is at the centre (row {mid_y})", s.k, s.vt_us, r.rx.0, r.rx.1));
+                    return;
+                }
+            }
+        }
     }
     // directions are judged against where the receiver's own marker is drawn (the centre cell)
     let centre = pos.get("RX").filter(|_| !moved).map(|p| (p.0 as i64, p.1 as i64)).unwrap_or((cx[0] as i64, cy[0] as i64));
